@@ -209,11 +209,16 @@ func genC12(t *rapid.T) C12Case {
 		o := ProgOpts{MaxItems: 8, Syllable: syll, MaxNum: 9, KeyChanges: 10, Settings: 15, Texts: 30, RestPct: 20, ExoticSyms: true}
 		ps := genProgression(o, key).Draw(t, "prog")
 		var s string
+		// half of the texts are written the way people write them: comments, blank lines, padded numbers, unicode accidentals
+		var st Style = canonStyle{}
+		if coin(t, "free-spelling", 50) {
+			st = &rapidStyle{t: t, trivia: true, us: true, zeros: true, uni: true, nEdits: map[string]int{}}
+		}
 		if syll {
 			ss, _ := SyllableSentence(ps, key)
-			s = Render(ss, canonStyle{})
+			s = Render(ss, st)
 		} else {
-			s = Render(DegreeSentence(ps), canonStyle{})
+			s = Render(DegreeSentence(ps), st)
 		}
 		if broken {
 			s, _ = mutate(t, s)
